@@ -313,6 +313,9 @@ def judge_clean_batch(res, home, split, stream, log, outp, before, oldpid, fresh
             res.counters.inc("clean_binary_ge_1e19_refused")
             continue
         got = [u[0] for u in o["unl"]]
+        for u in o["unl"]:
+            if u[1] == 0 and u[0] in paths:
+                expected_removed.add(u[0])       # named by this request, whatever else went wrong with it
         hard = None
         for k, u in enumerate(o["unl"][:2]):
             if u[1] != 0 and u[2] != 2:          # ENOENT is not an error for qmail-clean
@@ -333,9 +336,6 @@ def judge_clean_batch(res, home, split, stream, log, outp, before, oldpid, fresh
                 key = "C18/clean/valid-request-mishandled/" + rq[:4].decode()
             res.violate(key, "expected unlinks %r and '+' ('!' after a failing unlink)" % (paths,), wit)
             continue
-        for u in o["unl"]:
-            if u[1] == 0:
-                expected_removed.add(u[0])
         res.counters.inc("clean_binary_valid_handled")
         if rb == b"!":
             res.counters.inc("clean_binary_bang")
@@ -617,8 +617,10 @@ def judge_spawn_batch(res, home, which, spawn, cmds, pop, content, out, rec, st,
     want = sorted(c["delnum"] for c in complete)
     got = sorted(r[0] for r in reports)
     if want != got:
-        missing = sorted(set(want) - set(got))
-        extra = sorted(set(got) - set(want))
+        import collections
+        cw, cg = collections.Counter(want), collections.Counter(got)
+        missing = sorted((cw - cg).elements())
+        extra = sorted((cg - cw).elements())
         sub = "missing" if len(got) < len(want) else ("surplus" if len(got) > len(want) else "wrong-delnum")
         trunc = [c for c in cmds if not c["complete"]]
         res.violate("%s/reports!=commands/%s" % (W, sub),
